@@ -2,6 +2,7 @@
 import math
 import random
 
+from vpm import history
 from vpm.oracles import sphere as sp
 
 ID = "C15"
@@ -60,7 +61,7 @@ def anchors():
 
 
 POINTS = {}
-REQUIRED_CLAUSES = ["distance.range", "latitude.range", "parallax==asin",
+REQUIRED_CLAUSES = [history.CLAUSE, "distance.range", "latitude.range", "parallax==asin",
                     "daily-advance", "illuminated-fraction",
                     "node-rate", "perigee-rate", "phase.longitude-difference",
                     "apsis.distance-extremal", "node.latitude-zero",
@@ -372,11 +373,12 @@ def case_year_days(mon, fi, year):
     mon.cls("every-day-of-year", (fi, year), [meth, target, year])
 
 
-CASES = {"position": case_position, "sweep": case_sweep, "event": case_event,
+CASES = {"history": history.case, "position": case_position, "sweep": case_sweep, "event": case_event,
          "year_days": case_year_days}
 
 
 def run(mon, spec):
+    history.run_cases(mon, ID, spec)
     if not sp.self_check():
         raise RuntimeError("sphere self-check failed")
     rng = random.Random(hash((spec["seed"], spec["name"])) & 0xFFFFFFFF)
